@@ -30,6 +30,8 @@ def main():
         i = args.index('--wt')
         reuse = args[i + 1]
         args = args[:i] + args[i + 2:]
+    checks_only = '--checks-only' in args
+    args = [a for a in args if a != '--checks-only']
     checks = args or [prop]
     name = '%s_%s' % (prop, os.path.basename(seed))
     res = {'seed': seed, 'property': prop}
@@ -55,12 +57,22 @@ def main():
             if orig_wt:
                 cmd = cmd  # demo scripts take the worktree from the current directory
             return sh(cmd, cwd=wt, env=env)
-        rc0, o0 = run_demo()
-        res['demo_clean_rc'] = rc0
+        if not checks_only:
+            rc0, o0 = run_demo()
+            res['demo_clean_rc'] = rc0
         rc, out = sh('git apply %s/patch.diff' % seed, cwd=wt)
         res['apply_rc'] = rc
         if rc != 0:
             res['error'] = out[-400:]
+            return res
+        if checks_only:
+            res['checks'] = {}
+            for c in checks:
+                t0 = time.time()
+                e2 = dict(os.environ, VERIF_REPO=wt)
+                rc, out = sh('./check %s --tier quick' % c, cwd='/verif', env=e2, timeout=7200)
+                viol = [l for l in out.splitlines() if 'signature' in l]
+                res['checks'][c] = {'rc': rc, 'wall': round(time.time() - t0), 'signatures': [l.strip() for l in viol][:8]}
             return res
         rc, out = sh('cargo build --offline --workspace 2>&1 | tail -3', cwd=wt, env=env)
         rcb, _ = sh('cargo build --offline --workspace', cwd=wt, env=env)
